@@ -120,7 +120,7 @@ Record copy_spec (vt : N * N) (now_s : N) (s : cvol) (a : cacc) : Prop := {
       exists r', find_rec (a_recs a) (ie_off e) = Some r' /\ Z.of_N (r_size r') = ie_size e /\
                  content (cv s) k = Some (pl r');
   (* no entry: nothing readable, or dropped by the TTL filter *)
-  cs_none : forall k, nozero s -> idx_get (a_db a) k = None ->
+  cs_none : forall k, (forall nv, nm_get (nm (cv s)) k = Some nv -> nv_size nv <> 0%Z) -> idx_get (a_db a) k = None ->
       content (cv s) k = None \/
       exists p, content (cv s) k = Some p /\ 0 < fst (fst p) /\ ttl_dropped vt now_s (view_pl p) = true
 }.
@@ -190,7 +190,7 @@ Proof.
     assert (Hpos : (0 < size)%Z).
     { unfold live in L. destruct (nm_get (nm (cv s)) k) as [nv|] eqn:G; [|discriminate].
       destruct (nv_off nv =? 0); [discriminate|]. destruct (size_deleted (nv_size nv)); [discriminate|].
-      inversion L as [[E1 E2]]. specialize (Hz k nv G). lia. }
+      inversion L as [[E1 E2]]. specialize (Hz nv eq_refl). lia. }
     exists (pl r). split; [reflexivity|]. split; [simpl; lia|].
     destruct (sel_scan vt now_s (nm (cv s)) r) as [r0|] eqn:Sel.
     + exfalso. apply (Jnone r r0 Hin Sel). destruct (sel_scan_some _ _ _ _ _ Sel) as [-> _]. rewrite Hid. exact Hg.
@@ -261,7 +261,7 @@ Proof.
     assert (Hpos : (0 < size)%Z).
     { unfold live in L. destruct (nm_get (nm (cv s)) k) as [nv|] eqn:G; [|discriminate].
       destruct (nv_off nv =? 0); [discriminate|]. destruct (size_deleted (nv_size nv)); [discriminate|].
-      inversion L as [[E1 E2]]. specialize (Hz k nv G). lia. }
+      inversion L as [[E1 E2]]. specialize (Hz nv eq_refl). lia. }
     exists (pl r). split; [reflexivity|]. split; [simpl; lia|].
     set (x := {| ie_key := k; ie_off := off; ie_size := size |}) in *.
     assert (D : entry_dead x = false).
